@@ -7,7 +7,7 @@
 From EsVerif.Common Require Import Base Bytes.
 From Coq.Strings Require Import Byte.
 From Coq.Strings Require String.
-From EsVerif.C07 Require Import Model Spec Basics Skel Gen.
+From EsVerif.C07 Require Import Model Spec Basics Proofs Skel Gen.
 From Coq Require Import ZifyBool ZifyNat.
 
 Lemma len_eqb_length {A B} (l1 : list A) (l2 : list B) :
@@ -168,3 +168,34 @@ Proof.
   - apply tie_extract. - apply tie_remove. - apply tie_reorder. - apply tie_add. - apply tie_combine.
   - apply tie_copy_fields. - apply tie_cfbn. - apply tie_split_dispatch.
 Qed.
+
+(* --- the parameters carry meaning: with the output dimensioned by `.size` (what the as-found
+   combine_fields did: np.zeros(num, dtype=descr)) the statement about combine_fields is FALSE;
+   a 2-d witness (the copy into the 1-d output is refused) and a 0-d witness (the result has
+   shape (1,) instead of ()). *)
+Definition w2d (n : string) : sarray :=
+  mkA [2; 1] [mkF (mkD n (mkT BE KInt 2) []) [unhex "0007"; unhex "0008"]].
+Definition w0d (n : string) : sarray :=
+  mkA [] [mkF (mkD n (mkT BE KInt 2) []) [unhex "0007"]].
+
+Lemma asfound_combine_refuted :
+  (combine_scope [w2d "a"; w2d "b"]
+   /\ ~ combine_spec [w2d "a"; w2d "b"] (combine_fields_g CEq CEq CNe UseSize [w2d "a"; w2d "b"]))
+  /\ (combine_scope [w0d "a"; w0d "b"]
+      /\ ~ combine_spec [w0d "a"; w0d "b"] (combine_fields_g CEq CEq CNe UseSize [w0d "a"; w0d "b"])).
+Proof.
+  split; (split; [apply combine_scope_dec; vm_compute; reflexivity|]).
+  - intros [[R _]|[_ [r [Hr _]]]].
+    + revert R. apply (dec_false _ _ (combine_rejects_dec _)). vm_compute. reflexivity.
+    + vm_compute in Hr. discriminate.
+  - intros [[R _]|[_ [r [Hr [Hs _]]]]].
+    + revert R. apply (dec_false _ _ (combine_rejects_dec _)). vm_compute. reflexivity.
+    + vm_compute in Hr. inversion Hr; subst r. vm_compute in Hs. discriminate.
+Qed.
+
+(* ... and with the dispatch of the as-found remove_fields / copy_fields_by_name (only `list`,
+   resp. `list, ndarray`, taken as a sequence) a tuple of names is not iterated as names at all *)
+Lemma asfound_dispatch_refuted : forall l,
+  wrap_by (mkForms false true false false) (NTuple l) = None
+  /\ wrap_by (mkForms false true true false) (NTuple l) = None.
+Proof. intro l. split; reflexivity. Qed.
